@@ -30,12 +30,51 @@ def plain(n):
     return isinstance(n, str)
 
 
-def build_items(tier, flt=None):
+FAMILIES = {
+    "C01": ["i32", "i64", "int_exprs", "int_literals"],
+    "C02": ["f32", "f32_bitwise", "f32_cmp", "f64", "f64_bitwise", "f64_cmp", "float_exprs", "float_misc", "conversions"],
+    "C03": ["block", "loop", "if", "br", "br_if", "br_table", "return", "unreachable", "select", "nop", "stack", "labels", "switch",
+            "local_get", "local_set", "local_tee", "unwind", "forward", "fac", "unreached-valid"],
+    "C04": ["call", "call_indirect", "func", "func_ptrs", "left-to-right", "type"],
+    # (the suite's bulk-memory files fill and compare whole pages byte by byte: too slow for the explicit-state model;
+    #  checks/c05.py has its own directed bulk cases)
+    "C05": ["memory", "memory_grow", "memory_size", "address", "align", "load", "store", "endianness", "memory_redundancy", "memory_trap",
+            "float_memory", "traps"],
+    "C06": ["data", "start", "global", "elem", "exports"],
+    "C07": ["const", "float_literals"],
+    "C08": ["binary-leb128", "binary", "custom"],
+}
+
+
+def phase(v, prop, tier, builds=None):
+    """Runs the spec-suite files of one property's family through model and implementation; deviations go to the
+    caller's verdict under corpus:<file>:<why>; a disagreement between the model and the suite's own expectations
+    is a machinery error (the model, not w2c2, is wrong)."""
+    if not os.path.isdir(os.path.join(REPO, "tests", "gen")):
+        return {"corpus_modules": 0, "corpus_ops_compared": 0, "corpus_model_agrees_with_suite": 0, "corpus_states": 0}
+    items, expectations = build_items("thorough", names=set(FAMILIES[prop]))
+    if not items:
+        return {"corpus_modules": 0, "corpus_ops_compared": 0, "corpus_model_agrees_with_suite": 0, "corpus_states": 0}
+    if tier == "quick":
+        items = items[::3]
+    for it in items:
+        it["id"] = "c_" + it["id"]
+    expectations = {("c_" + i, k): w for (i, k), w in expectations.items()}
+    st, exp = machine.replay(v, items, builds or [{"name": "gcc-O1", "cc": "gcc", "cflags": ("-O1",)}],
+                             sigfn=lambda it, k, why, b, e, a: "corpus:%s:%s" % (it["file"].split(".")[0], why.split(":")[0]), tlc_timeout=1500)
+    bad, agreed = check_model(items, exp, expectations)
+    if bad:
+        raise common.MachineryError("WasmExec disagrees with the spec suite's expectation: %s" % (bad[:5],))
+    return {"corpus_modules": len(items), "corpus_ops_compared": st["ops_compared"], "corpus_model_agrees_with_suite": agreed,
+            "corpus_states": st["states"]}
+
+
+def build_items(tier, flt=None, names=None):
     gen = os.path.join(REPO, "tests", "gen")
     items, expectations = [], {}
     for jf in sorted(f for f in os.listdir(gen) if f.endswith(".json")):
         base = jf[:-5]
-        if base in SKIP_FILES or (flt and flt not in base):
+        if base in SKIP_FILES or (flt and flt not in base) or (names is not None and base not in names):
             continue
         cmds = json.load(open(os.path.join(gen, jf)))["commands"]
         cur = None
